@@ -572,11 +572,15 @@ impl<T: Clone + Eq + Debug + Default> WrappedBlock<T> {
         }
     }
 
-    /// Consume self and return vector of lines including annotations.
-    pub fn into_lines(mut self) -> Result<Vec<TaggedLine<T>>> {
+    /// Consume self and return vector of lines including annotations,
+    /// plus any markers (fragment starts) left over on a last line which
+    /// has no text and so was not emitted.
+    pub fn into_lines_and_markers(
+        mut self,
+    ) -> Result<(Vec<TaggedLine<T>>, Vec<TaggedLineElement<T>>)> {
         self.flush()?;
 
-        Ok(self.text)
+        Ok((self.text, self.line.v))
     }
 
     fn add_text(
@@ -1206,8 +1210,10 @@ impl<D: TextDecorator> SubRenderer<D> {
     fn flush_wrapping(&mut self) -> Result<()> {
         if let Some(mut w) = self.wrapping.take() {
             let frags = w.take_trailing_fragments();
-            self.extend_lines(w.into_lines()?.into_iter().map(RenderLine::Text));
+            let (lines, leftover) = w.into_lines_and_markers()?;
+            self.extend_lines(lines.into_iter().map(RenderLine::Text));
 
+            self.pending_frags.extend(leftover);
             self.pending_frags.extend(frags);
         }
         Ok(())
